@@ -42,9 +42,12 @@ func (l *streamLog) add(ts time.Time, sequenceNumber uint16, ecn uint8) {
 	if unwrappedSequenceNumber < l.nextSequenceNumberToReport {
 		return
 	}
-	l.log[unwrappedSequenceNumber] = &packetReport{
-		arrivalTime: ts,
-		ecn:         ecn,
+	// A duplicate must not replace the arrival time (and ECN mark) of the first copy.
+	if _, ok := l.log[unwrappedSequenceNumber]; !ok {
+		l.log[unwrappedSequenceNumber] = &packetReport{
+			arrivalTime: ts,
+			ecn:         ecn,
+		}
 	}
 	if l.lastSequenceNumberReceived < unwrappedSequenceNumber {
 		l.lastSequenceNumberReceived = unwrappedSequenceNumber
